@@ -23,7 +23,8 @@ Import ListNotations.
 Definition code_fx : bool := gen_suicide_restores_size.        (* F8 repaired *)
 Definition code_rejournal : bool := gen_size_revert_rejournals. (* sizeChange.revert uses the journalling setter *)
 Definition code_fixd : bool := gen_evm_revert_restores_batch.   (* F9 repaired *)
-Global Opaque code_fx code_rejournal code_fixd.
+Definition code_create_oog_reverts : bool := gen_create_reverts_on_codestore_oog. (* EVM.create reverts on ErrCodeStoreOutOfGas *)
+Global Opaque code_fx code_rejournal code_fixd code_create_oog_reverts.
 
 Definition word := N.
 
@@ -426,16 +427,26 @@ Definition benign (fx : bool) (o : op) (m : mstate) : bool :=
   | _ => true
   end.
 
-Inductive frame := FOp (o : op) | FCall (body : list frame) (fails : bool).
+(* How a frame ends (core/vm/evm.go Call.. and create): every error reverts to the snapshot taken at
+   entry, except that create keeps `err != ErrCodeStoreOutOfGas` in its guard: a creation whose code
+   deposit runs out of gas is reported as failed but NOT reverted. *)
+Inductive ending := EndOk | EndFail | EndCodeStoreOOG.
+Definition ending_reverts (oog_reverts : bool) (e : ending) : bool :=
+  match e with EndOk => false | EndFail => true | EndCodeStoreOOG => oog_reverts end.
+Definition ending_failed (e : ending) : bool := match e with EndOk => false | _ => true end.
+Definition ending_of_class (n : N) : ending :=   (* harness classes: 0 ok, 1 reverted, 2 code-store out of gas *)
+  match n with 0%N => EndOk | 2%N => EndCodeStoreOOG | _ => EndFail end.
+
+Inductive frame := FOp (o : op) | FCall (body : list frame) (e : ending).
 
 (* the boolean component stays true as long as every FOp is a mutator and is benign *)
-Fixpoint exec (fx : bool) (f : frame) (xb : sdb * bool) : sdb * bool :=
+Fixpoint exec (fx oog : bool) (f : frame) (xb : sdb * bool) : sdb * bool :=
   match f with
   | FOp o => (fst (step fx (fst xb) o), snd xb && is_mut o && benign fx o (s_m (fst xb)))
-  | FCall body fails =>
+  | FCall body e =>
       let id := s_next (fst xb) in
-      let r := fold_left (fun acc g => exec fx g acc) body (fst (step fx (fst xb) OSnapshot), snd xb) in
-      if fails then (fst (step fx (fst r) (ORevert id)), snd r) else r
+      let r := fold_left (fun acc g => exec fx oog g acc) body (fst (step fx (fst xb) OSnapshot), snd xb) in
+      if ending_reverts oog e then (fst (step fx (fst r) (ORevert id)), snd r) else r
   end.
 
 (* a StateDB between transactions: nothing to revert *)
@@ -600,7 +611,8 @@ Definition scase_ok (c : scase) : bool :=
    record is still readable after UndoCoinbasesDeleted-if-failed and batch.Write. *)
 Inductive case :=
 | CS (c : scase)
-| CE (id : N) (k : key) (v : list N) (top : eframe) (n_etx n_hash n_del : N) (record_left : bool).
+| CE (id : N) (k : key) (v : list N) (top : eframe) (n_etx n_hash n_del : N) (record_left : bool)
+| CO (id : N) (class : N) (effects_left : bool).   (* a creation frame: how it ended, and whether its effects stayed *)
 
 Definition ecase_ok (k : key) (v : list N) (top : eframe) (n_etx n_hash n_del : N) (record_left : bool) : bool :=
   let st0 := mkEvm [] [] [] [] [(k, v)] in
@@ -613,9 +625,10 @@ Definition case_ok (c : case) : bool :=
   match c with
   | CS c => scase_ok c
   | CE _ k v top a b d r => ecase_ok k v top a b d r
+  | CO _ cl stay => Bool.eqb stay (negb (ending_reverts code_create_oog_reverts (ending_of_class cl)))
   end.
 
 Definition case_id (c : case) : N :=
-  match c with CS (i, _, _, _) => i | CE i _ _ _ _ _ _ _ => i end.
+  match c with CS (i, _, _, _) => i | CE i _ _ _ _ _ _ _ => i | CO i _ _ => i end.
 Definition mismatches (cs : list case) : list N :=
   map case_id (filter (fun c => negb (case_ok c)) cs).
